@@ -22,28 +22,36 @@ Definition luma16 (c : Z) : Z :=
   (19595 * r + 38470 * g + 7471 * b + 32768) / 65536.
 Definition luma_nibble (c : Z) : Z := luma16 c / 4096.
 
-(* ---------- exports of a mono image ---------- *)
+(* ---------- exports of a mono image ----------
+   Byte lists are seen through (length, index -> byte) so that the theorems can use the list
+   view [znth 0 l] and the oracle an indexed view of the same list (Run/C17.v). *)
 Definition pixel_colour (wib : Z) (d : list Z) (pixc bgc : Z) (x y : Z) : Z := if px wib d x y then pixc else bgc.
 
 (* RGB565 export: exactly 2*W*H bytes, pixel k = y*W+x in bytes 2k (high) and 2k+1 (low) *)
-Definition rgb_export_ok (W H wib : Z) (d : list Z) (pixc bgc : Z) (out : list Z) : bool :=
-  (zlen out =? 2 * W * H) &&
+Definition rgb_export_ok_p (W H : Z) (p : pix) (pixc bgc : Z) (len : Z) (get : Z -> Z) : bool :=
+  (len =? 2 * W * H) &&
   all_rect 0 0 W H (fun x y =>
-    let c := pixel_colour wib d pixc bgc x y in
+    let c := if p x y then pixc else bgc in
     let k := y * W + x in
-    (znth 0 out (2 * k) =? c / 256) && (znth 0 out (2 * k + 1) =? c mod 256)).
+    (get (2 * k) =? c / 256) && (get (2 * k + 1) =? c mod 256)).
+Definition rgb_export_ok (W H wib : Z) (d : list Z) (pixc bgc : Z) (out : list Z) : bool :=
+  rgb_export_ok_p W H (px wib d) pixc bgc (zlen out) (znth 0 out).
 
 (* 4-bit grey export (even W): exactly W*H/2 bytes, pixel k in byte k/2, high nibble first *)
-Definition nibble_at (out : list Z) (k : Z) : Z :=
-  let b := znth 0 out (k / 2) in if k mod 2 =? 0 then b / 16 else b mod 16.
+Definition nibble_get (get : Z -> Z) (k : Z) : Z :=
+  let b := get (k / 2) in if k mod 2 =? 0 then b / 16 else b mod 16.
+Definition nibble_at (out : list Z) (k : Z) : Z := nibble_get (znth 0 out) k.
+Definition gray_export_ok_p (W H : Z) (p : pix) (pixc bgc : Z) (len : Z) (get : Z -> Z) : bool :=
+  (len =? W * H / 2) &&
+  all_rect 0 0 W H (fun x y => nibble_get get (y * W + x) =? luma_nibble (if p x y then pixc else bgc)).
 Definition gray_export_ok (W H wib : Z) (d : list Z) (pixc bgc : Z) (out : list Z) : bool :=
-  (zlen out =? W * H / 2) &&
-  all_rect 0 0 W H (fun x y =>
-    nibble_at out (y * W + x) =? luma_nibble (pixel_colour wib d pixc bgc x y)).
+  gray_export_ok_p W H (px wib d) pixc bgc (zlen out) (znth 0 out).
 
 (* image object round trip: every visible pixel reproduced / complemented *)
+Definition visible_equal_p (W H : Z) (p p' : pix) (compl : bool) : bool :=
+  all_rect 0 0 W H (fun x y => Bool.eqb (p' x y) (xorb compl (p x y))).
 Definition visible_equal (W H wib : Z) (d d' : list Z) (compl : bool) : bool :=
-  all_rect 0 0 W H (fun x y => Bool.eqb (px wib d' x y) (xorb compl (px wib d x y))).
+  visible_equal_p W H (px wib d) (px wib d') compl.
 
 (* ---------- graphics states ---------- *)
 Definition exp_scale (v vmax : Z) : Z := v * 255 / vmax.
@@ -56,20 +64,23 @@ Definition covered (ty W : Z) (len : Z) (x y : Z) : bool :=
   else false.
 
 (* the documented expansion of the stored value at a covered pixel *)
-Definition expansion (ty W : Z) (data : list Z) (x y : Z) : rgba :=
+Definition expansion_p (ty W : Z) (get : Z -> Z) (x y : Z) : rgba :=
   let k := y * W + x in
   if ty =? 1 then
-    let v := znth 0 data (2 * k) * 256 + znth 0 data (2 * k + 1) in
+    let v := get (2 * k) * 256 + get (2 * k + 1) in
     (exp_scale (v mod 32) 31, exp_scale ((v / 32) mod 64) 63, exp_scale ((v / 2048) mod 32) 31, 255)
   else if ty =? 2 then
-    let n := nibble_at data k in (exp_scale n 15, exp_scale n 15, exp_scale n 15, 255)
-  else if px ((W + 7) / 8) data x y then c_white else c_black.
+    let n := nibble_get get k in (exp_scale n 15, exp_scale n 15, exp_scale n 15, 255)
+  else if Z.testbit (get (y * ((W + 7) / 8) + x / 8)) (7 - x mod 8) then c_white else c_black.
+Definition expansion (ty W : Z) (data : list Z) (x y : Z) : rgba := expansion_p ty W (znth 0 data) x y.
 
 Definition accessor := Z -> Z -> rgba.
 
 (* an image of the declared size whose covered pixels are the documented expansion *)
+Definition expansion_ok_p (ty W H : Z) (len : Z) (get : Z -> Z) (at_ : accessor) : bool :=
+  all_rect 0 0 W H (fun x y => negb (covered ty W len x y) || rgba_eqb (at_ x y) (expansion_p ty W get x y)).
 Definition expansion_ok (ty W H : Z) (data : list Z) (at_ : accessor) : bool :=
-  all_rect 0 0 W H (fun x y => negb (covered ty W (zlen data) x y) || rgba_eqb (at_ x y) (expansion ty W data x y)).
+  expansion_ok_p ty W H (zlen data) (znth 0 data) at_.
 
 (* two renderings agree wherever the data covers the image: [a1] shows image pixel (x,y) at
    (x+ox, y+oy) on a width x height canvas (pixels falling off the canvas are not compared),
